@@ -19,6 +19,7 @@ inline int point_code(const char *id) {
         {"q_res", 71},  {"q_wait", 72},
         {"busy_g", 42},
         {"sf_set", 52}, {"sf_clr", 53}, {"sf_inc", 54},
+        {"busy_n", 43},
     };
     for (auto &p : tbl)
         if (!std::strcmp(p.first, id)) return p.second;
